@@ -10,8 +10,14 @@ import (
 // RelMapMagic is the magic number for pg_filenode.map files
 const RelMapMagic = 0x592717
 
-// RelMapMaxMappings is the maximum number of mappings in the map file
+// RelMapMaxMappings is the maximum number of mappings in the map file (PostgreSQL 15 and earlier)
 const RelMapMaxMappings = 62
+
+// RelMapMaxMappingsV16 is the maximum number of mappings since PostgreSQL 16
+const RelMapMaxMappingsV16 = 64
+
+// RelMapFileSizeV16 is sizeof(RelMapFile) since PostgreSQL 16: 4 + 4 + 64*8 + 4, no padding
+const RelMapFileSizeV16 = 524
 
 // RelMapping represents a single OID to filenode mapping
 type RelMapping struct {
@@ -37,8 +43,11 @@ type RelMapFile struct {
 //	num_mappings (4 bytes)
 //	mappings[62] (8 bytes each = 496 bytes)
 //	crc (4 bytes)
+//	pad (4 bytes)
 //
-// Total size: 512 bytes
+// Total size: 512 bytes.  PostgreSQL 16 widened the array to mappings[64] and dropped the
+// padding: crc at offset 520, total size 524 bytes (the magic is unchanged).  PostgreSQL reads
+// exactly sizeof(RelMapFile) bytes, so the layout is told by the file size.
 func ParseRelMapFile(data []byte) (*RelMapFile, error) {
 	if len(data) < 512 {
 		return nil, fmt.Errorf("relmap file too small: %d bytes (expected 512)", len(data))
@@ -52,9 +61,15 @@ func ParseRelMapFile(data []byte) (*RelMapFile, error) {
 		return nil, fmt.Errorf("invalid relmap magic: 0x%X (expected 0x%X)", rm.Magic, RelMapMagic)
 	}
 
+	// A 524-byte file is the PostgreSQL 16 layout, anything else the 512-byte one
+	maxMappings := int32(RelMapMaxMappings)
+	if len(data) == RelMapFileSizeV16 {
+		maxMappings = RelMapMaxMappingsV16
+	}
+
 	// Read number of mappings
 	rm.NumMappings = int32(binary.LittleEndian.Uint32(data[4:8]))
-	if rm.NumMappings < 0 || rm.NumMappings > RelMapMaxMappings {
+	if rm.NumMappings < 0 || rm.NumMappings > maxMappings {
 		return nil, fmt.Errorf("invalid number of mappings: %d", rm.NumMappings)
 	}
 
@@ -73,8 +88,8 @@ func ParseRelMapFile(data []byte) (*RelMapFile, error) {
 		offset += 8
 	}
 
-	// CRC is at offset 504 (after 62 mappings)
-	crcOffset := 8 + RelMapMaxMappings*8
+	// CRC follows the mapping array: offset 504 (after 62 mappings), 520 in the PostgreSQL 16 layout
+	crcOffset := 8 + int(maxMappings)*8
 	if len(data) >= crcOffset+4 {
 		rm.CRC = binary.LittleEndian.Uint32(data[crcOffset : crcOffset+4])
 	}
